@@ -102,7 +102,15 @@ fn apply_mutations(mut b: Vec<u8>, muts: &[Mutation], toks: &[&[u8]]) -> Vec<u8>
             6 | 7 => {
                 // lengthen a line: a run of 1..=120 filler units (ASCII or multi-byte) at one place
                 let unit = FILL[(m.byte as usize) % FILL.len()].as_bytes();
-                let reps = 1 + (m.tok as usize) % 120;
+                // mostly 1..=120 units; one time in 97 a run of 4-5 thousand, one time in 1009 a run of
+                // 2^16 + 0..63 units (a line longer than any 64 KiB buffer)
+                let reps = if m.tok % 1009 == 0 {
+                    65_536 + (m.byte as usize) % 64
+                } else if m.tok % 97 == 0 {
+                    4_000 + (m.tok as usize) % 1_000
+                } else {
+                    1 + (m.tok as usize) % 120
+                };
                 let mut ins = Vec::with_capacity(unit.len() * reps);
                 for k in 0..reps {
                     ins.extend_from_slice(unit);
@@ -111,9 +119,7 @@ fn apply_mutations(mut b: Vec<u8>, muts: &[Mutation], toks: &[&[u8]]) -> Vec<u8>
                         ins.push(b'b');
                     }
                 }
-                for (i, x) in ins.iter().enumerate() {
-                    b.insert(pos + i, *x);
-                }
+                b.splice(pos..pos, ins);
             }
             _ => {
                 // duplicate a line somewhere else
@@ -480,7 +486,7 @@ impl Prop for Readers {
         "C13"
     }
     fn rule(&self) -> String {
-        "Byte strings for both readers from five generators: (o) one file in 3000 is a LARGE ICCMA'23 file (250 to 100000 arguments, up to 9000 attack lines with indices at and around the bounds, header with up to 120 blanks, comment lines of up to 60 KB, optionally one ill-formed line at the very end); (i) grammar-based well-formed files with the decorations the formats define (ICCMA'23: # comment lines, trailing blank lines, CRLF, missing final newline, surrounding/multiple blanks and tabs, duplicate attack lines; Aspartix: blank lines, blanks around identifiers, duplicate declarations, CRLF, identifiers over [_A-Za-z][_A-Za-z0-9]* incl. 'arg', 'att', '_'); (ii) targeted token-level corruptions of the listed ill-formedness classes (header word/arity/number, missing header, index 0 / n+1 / negative / non-numeric, 1 or 3 tokens, content after a blank line, undeclared argument, argument after attack, missing terminator, wrong arity); (iii) byte-level mutations (insert token, delete, replace, truncate, drop line, duplicate line, lengthen a line by up to 120 ASCII or multi-byte UTF-8 filler units) and token soup; (iv) raw random bytes incl. invalid UTF-8 and NUL. Oracle: no panic; tri-state reference parsers (Accept => Ok with exactly the declared labels in order and the declared attack set; Reject => Err; Unspecified => Err or the natural reading); read_arg_from_str on every label and out-of-range values. Declared sizes above 10^5 are excluded and counted. Non-trivial: a well-formed file with >=1 decoration and >=1 attack, or an input the reference rejects; distinct = (format, bytes).".into()
+        "Byte strings for both readers from five generators: (o) one file in 3000 is a LARGE ICCMA'23 file (250 to 100000 arguments, up to 9000 attack lines with indices at and around the bounds, header with up to 120 blanks, comment lines of up to 60 KB, optionally one ill-formed line at the very end); (i) grammar-based well-formed files with the decorations the formats define (ICCMA'23: # comment lines, trailing blank lines, CRLF, missing final newline, surrounding/multiple blanks and tabs, duplicate attack lines; Aspartix: blank lines, blanks around identifiers, duplicate declarations, CRLF, identifiers over [_A-Za-z][_A-Za-z0-9]* incl. 'arg', 'att', '_'); (ii) targeted token-level corruptions of the listed ill-formedness classes (header word/arity/number, missing header, index 0 / n+1 / negative / non-numeric, 1 or 3 tokens, content after a blank line, undeclared argument, argument after attack, missing terminator, wrong arity); (iii) byte-level mutations (insert token, delete, replace, truncate, drop line, duplicate line, lengthen a line by up to 120 (rarely 4-5 thousand, or 2^16 and a few) ASCII or multi-byte UTF-8 filler units) and token soup; (iv) raw random bytes incl. invalid UTF-8 and NUL. Oracle: no panic; tri-state reference parsers (Accept => Ok with exactly the declared labels in order and the declared attack set; Reject => Err; Unspecified => Err or the natural reading); read_arg_from_str on every label and out-of-range values. Declared sizes above 10^5 are excluded and counted. Non-trivial: a well-formed file with >=1 decoration and >=1 attack, or an input the reference rejects; distinct = (format, bytes).".into()
     }
     fn assumptions(&self) -> Vec<String> {
         vec![
